@@ -65,8 +65,14 @@ def oracle_force(args):
 def _run(spec, dt, steps):
     from mudslide.ehrenfest import Ehrenfest
     rng = np.random.Generator(np.random.PCG64(spec["model_seed"]))
-    model = SynthModel(rng, spec["N"], spec["n"], scale=spec.get("scale", 0.03), gap=0.01, representation=spec.get("representation", "adiabatic"))
-    rho0 = random_rho(rng, spec["N"], "pure")
+    if spec.get("builtin"):
+        import mudslide
+        model = mudslide.models.scattering_models[spec["builtin"]](representation=spec.get("representation", "adiabatic"))
+        rho0 = np.zeros((model.nstates(), model.nstates()), dtype=np.complex128)
+        rho0[spec["state"], spec["state"]] = 1.0
+    else:
+        model = SynthModel(rng, spec["N"], spec["n"], scale=spec.get("scale", 0.03), gap=0.01, representation=spec.get("representation", "adiabatic"))
+        rho0 = random_rho(rng, spec["N"], "pure")
     t = Ehrenfest(model, np.array(spec["x0"]), np.array(spec["p0"]), rho0, state0=spec["state"], dt=dt, max_steps=steps,
                   electronic_integration=spec.get("integ", "exp"))
     forces = []
@@ -188,6 +194,22 @@ def run(ctx):
     # whole Ehrenfest runs (adiabatic and diabatic representation) against the composed step of the model (MudModel/Step.lean):
     # every snapshot - position, momentum, density matrix, constant label, logged potential = tr(rho H)
     rc.run_correspondence(ctx, ctx.budget(8, 200), hops=False, label="ehrun", cls="Ehrenfest")
+    # scattering runs on the built-in models that START IN THE ASYMPTOTIC REGION (coupling ~ 1e-40 there) and then cross the
+    # coupling region, in the diabatic representation: the logged potential has to be tr(rho H) all the way
+    for i in range(ctx.budget(2, 12)):
+        spec = dict(builtin=["simple", "dual", "extended"][i % 3], N=2, n=1, model_seed=1, x0=[-10.0], p0=[float(rng.uniform(10, 25))], state=0,
+                    dt=20.0, steps=int(rng.integers(80, 140)), integ=["exp", "linear-rk4"][i % 2], representation="diabatic")
+        snaps, _f = _run(spec, spec["dt"], spec["steps"])
+        ctx.case(("asymptotic-start", spec["builtin"], spec["integ"]))
+        ctx.count("runs_from_the_asymptotic_region")
+        for sn in snaps:
+            Hm = np.array(sn["electronics"]["hamiltonian"])
+            want = float(np.real(np.trace(np.asarray(sn["density_matrix"]) @ Hm)))
+            if not close(sn["potential"], want, float(np.max(np.abs(Hm))) + 1e-300):
+                ok_, obs_, req_, text_ = oracle_run(spec)
+                ctx.oracle_fail("ehrenfest-run", "run", spec, obs_, req_, text_ if not ok_ else
+                                "potential %r != tr(rho H) = %r at t=%r" % (sn["potential"], want, sn["time"]))
+                break
     for i in range(ctx.budget(8, 60)):
         N = int(rng.integers(2, 5))
         n = int(rng.integers(1, 3))
